@@ -331,6 +331,13 @@ def stream_auth(rng, tier):
                 for p in PORTS:
                     yield "auth %s %s" % (f, hx(("" if u is None else u + "@") + h +
                                                 ("" if p is None else ":" + p)))
+    # characters of every UTF-8 length (2, 3 and 4 bytes) right before and right after each delimiter
+    for c in ["\u00e9", "\u20ac", "\U00010000", "\U00020000", "\U0010fffd"]:
+        for t in ["u%s@host", "%s@host", "u@%shost", "u@host%s:80", "%s:80", "host%s:80", "u%s:p%s@h%s:1", "u:%s@h", "%s", "%s@", "@%s", "%s:"]:
+            a = t.replace("%s", c)
+            yield "auth i %s" % hx(a)
+            yield "parts i ref %s" % hx("//" + a + "/p")
+            yield "parts i full %s" % hx("s://" + a + "/p?q#f")
     n = 500 if tier == "quick" else 20000
     for _ in range(n):
         f = rng.choice("ui")
@@ -412,7 +419,8 @@ def stream_setters(rng, tier):
     refs = small_refs() if tier == "thorough" else [s for s in exhaustive("a:/?#.", 3)] + \
         ["a://", "s://h", "s://h/a", "//h/a?q#f", "s:a:b", "a:b/c", "s:/a//b", "s://h//a", "aaa:@:",
          "s:?q", "s:#f", "//h?q", "//@:", "s://u@h:1/p?q#f", "/a:b", "./a:b", "s:/.//a",
-         "s://h:/old?q#f", "//h:/old#f", "s://h:", "//u@h:?q", "s://[::1]:/p", "//h:", "s://h:?q"]
+         "s://h:/old?q#f", "//h:/old#f", "s://h:", "//u@h:?q", "s://[::1]:/p", "//h:", "s://h:?q",
+         "http://example.org#/home", "s://h?/search#top", "//h?//x", "s://h#//", "s:?/a", "s:#/", "//h?a:b", "s://h#a:b/c"]
     for b in refs:
         for op, vals in SETTER_VALUES.items():
             for v in vals:
@@ -629,11 +637,11 @@ def stream_authmut(rng, tier):
 def stream_resolve(rng, tier):
     """C06"""
     bases = ["s:", "s:a", "s:a/b", "s:/", "s:/a/b", "s://h", "s://h/", "s://h/a/b", "s://h/a/b/",
-             "s:a/../b", "s:/a//b", "s://h//a/b?q", "s://h/a/./b/../c", "s:?q", "s://h?q#f", "s:a/b?q", "s://h///x", "s://h:/a",
+             "s:a/../b", "s:/a//b", "s://h//a/b?q", "s://h/a//b", "s://h//b", "s://h/a/./b/../c", "s:?q", "s://h?q#f", "s:a/b?q", "s://h///x", "s://h:/a",
              "http://a/b/c/d;p?q", "s:..", "s:../x", "s://h/..", "s:/.//a", "s:a/"]
     k = 4 if tier == "quick" else 6
     for r in exhaustive("a/.:?#", k):
-        for b in bases if tier == "thorough" else bases[:13]:
+        for b in bases if tier == "thorough" else bases[:15]:
             yield "resolve u %s %s" % (hx(b), hx(r))
     for r in exhaustive("a/.", 4 if tier == "quick" else 5):
         for b in ["s://h/a/b", "s:a/b", "s:/a"]:
@@ -705,6 +713,7 @@ def stream_cmp(rng, tier):
             yield "cmp u ref %s %s" % (hx(a), hx(b))
             yield "cmp u fullref %s %s" % (hx(a), hx(b))
             yield "cmp i full %s %s" % (hx(a), hx(b))
+    refs += ["s:a?z", "s:b?y", "s:a#z", "s:b#y", "s://h/a?z", "s://h/b?y", "s://g/a?z#1", "s://h/a?y#2"]
     refs += ["s:a:b", "s:a%3Ab", "s:./a:b", "s:a:./b", "urn:isbn:1", "urn:isbn%3A1", "urn:./isbn:1", "s:a:b/c", "s:x/../a:b"]
     rels = ["", "a", "./a", "a/b", "/a", "//h", "//h/a", "?q", "#f", "a?q#f", "../a", "a/..", "%61"]
     for a in rels + refs[:8]:
